@@ -188,7 +188,8 @@ func (c *gctx) gpos5_1() gtab.Subtable {
 	}
 	arr := make([][][]anchor.Table, len(ligs))
 	for i := range arr {
-		nComp := rapid.IntRange(1, 3).Draw(t, "p51Components")
+		// a ligature glyph may be listed without any component record
+		nComp := rapid.SampledFrom([]int{0, 1, 1, 2, 2, 3}).Draw(t, "p51Components")
 		arr[i] = make([][]anchor.Table, nComp)
 		for j := range arr[i] {
 			row := make([]anchor.Table, k)
@@ -197,6 +198,27 @@ func (c *gctx) gpos5_1() gtab.Subtable {
 			}
 			arr[i][j] = row
 		}
+	}
+	if len(arr) >= 2 && rapid.IntRange(0, 3).Draw(t, "p51Lopsided") == 0 {
+		// the first ligature has no component (so nothing about the table can
+		// be read off its rows) and the widest rows belong to a mark class no
+		// mark glyph uses: the class count is only visible in later rows
+		arr[0] = nil
+		if len(arr[1]) == 0 {
+			row := make([]anchor.Table, k)
+			for m := range row {
+				row[m] = c.anchor("p51Anchor", 2)
+			}
+			arr[1] = [][]anchor.Table{row}
+		}
+		if k >= 2 {
+			for i := range recs {
+				if int(recs[i].Class) == k-1 {
+					recs[i].Class = 0
+				}
+			}
+		}
+		c.label("gpos5:first-ligature-without-components")
 	}
 	return &gtab.Gpos5_1{
 		MarkCov:   CovTable(marks),
